@@ -37,4 +37,4 @@ def locate_proof_failure(out):
     return m[0] if m else "lake build"
 
 NOT_APPLICABLE = {}
-HOOK_COMMITS = []
+HOOK_COMMITS = ["509840a"]
